@@ -132,6 +132,7 @@ macro_rules! c07_skew {
     };
 }
 //@ id: c07_skew_normal_f64
+//@ besteffort: yes
 //@ prop: C07
 //@ tier: thorough
 //@ cap: 900
